@@ -511,7 +511,7 @@ func checkC03Forwarder(p *Prog, r *Report, rFw, rId, rOrd *Rule, top *ssa.Functi
 		fv := fieldOfLoad(v)
 		return nil != fv && fv != dataF && types.Identical(fv.Type(), types.Universe.Lookup("error").Type())
 	}
-	early := reachQ{From: Loc{armIf.Block().Succs[armSucc], -1}, Block: isHand, NoEdges: empty, Target: func(i ssa.Instruction) bool {
+	early := reachQ{From: edgeLoc(armIf.Block(), armSucc), Block: isHand, NoEdges: empty, Target: func(i ssa.Instruction) bool {
 		/* Taking the field out of the item is not looking at it: what
 		counts is a test, a call or a return using it. */
 		switch i.(type) {
@@ -533,7 +533,7 @@ func checkC03Forwarder(p *Prog, r *Report, rFw, rId, rOrd *Rule, top *ssa.Functi
 		rFw.OK(fnName(top)+":error-after-handover", posOf(ps.Instr), "the item's error is only looked at after the hand-over")
 	}
 	/* And a non-empty chunk always reaches the hand-over before the next dequeue. */
-	skip := reachQ{From: Loc{armIf.Block().Succs[armSucc], -1}, Block: isHand, NoEdges: empty, Target: func(i ssa.Instruction) bool {
+	skip := reachQ{From: edgeLoc(armIf.Block(), armSucc), Block: isHand, NoEdges: empty, Target: func(i ssa.Instruction) bool {
 		return i == ssa.Instruction(dq)
 	}}.run()
 	okEdge := map[Edge]bool{}
@@ -561,7 +561,7 @@ func checkC03Forwarder(p *Prog, r *Report, rFw, rId, rOrd *Rule, top *ssa.Functi
 		for e := range okEdge {
 			ne[e] = true
 		}
-		skip = reachQ{From: Loc{armIf.Block().Succs[armSucc], -1}, Block: isHand, NoEdges: ne, Target: func(i ssa.Instruction) bool { return i == ssa.Instruction(dq) }}.run()
+		skip = reachQ{From: edgeLoc(armIf.Block(), armSucc), Block: isHand, NoEdges: ne, Target: func(i ssa.Instruction) bool { return i == ssa.Instruction(dq) }}.run()
 	}
 	if nil != skip {
 		rFw.Bad(fnName(top)+":chunk-not-skipped", posOf(skip), "a dequeued non-empty chunk can be skipped (a path returns to the queue without the hand-over)")
